@@ -9,7 +9,7 @@
 
     What is PROVED here, for all inputs, over the executable models of the
     parsers that are modelled with explicit [Panic] outcomes and explicit fuel:
-      - textual tags            (Model/TagText.v,  after fix 802bc14)
+      - textual tags, attribute selectors, tag ranges (Model/TagText.v, after fix 802bc14)
       - DICOM JSON values/text  (Model/Json.v,     after fix 0bd6776)
       - RLE Lossless fragments  (Model/Rle.v,      after fix 52b40dc)
       - PDU decoding            (Model/Pdu.v; also stated as C25_read_total)
@@ -21,12 +21,12 @@
     harness/g_fuzz with catch_unwind, a per-case watchdog and a child process
     per batch): file opening / preamble logic, file meta reader, lazy reader,
     collector, JPEG / deflate / JPEG-LS / J2K / JXL decoders,
-    multi-byte text decoders, serde_json's text layer, dump, selectors,
-    date/time/range parsers. Known finding (KNOWN_FINDINGS.txt, class
+    multi-byte text decoders, serde_json's text layer, dump (date/time/range parser
+    totality: see C12_parse_total; file meta reader: C09_read_total, when present). Known finding (KNOWN_FINDINGS.txt, class
     prealloc-declared-length): value readers allocate the declared value
     length before reading, up to 4 GiB for a 12-byte input. *)
 From DicomV Require Import Base.Prelude.
-From DicomV Require Base.RustStr Proofs.RustStrP Model.TagText Proofs.TagTextP.
+From DicomV Require Base.RustStr Proofs.RustStrP Model.TagText Proofs.TagTextP Proofs.TagTotalP.
 From DicomV Require Model.Json Proofs.JsonTotalP.
 From DicomV Require Model.Rle Proofs.RleTotalP.
 From DicomV Require Base.Endian Model.ValueRead Proofs.ValueReadP.
@@ -38,6 +38,15 @@ From DicomV Require Model.Pdu Proofs.PduTotalP.
 Theorem C05_tag_text_total : forall (cps : str) w,
   TagText.tag_from_str (RustStr.utf8 cps) <> Panic w.
 Proof. intros cps w. apply TagTextP.tag_from_str_no_panic. apply RustStrP.utf8_ascii_sync. Qed.
+
+(** Attribute selectors (release build: the only panic of the model is a debug assertion, see
+    C14_selector_panic_only_debug), tag ranges "(60xx,3000)" and VR codes, on ANY string. *)
+Theorem C05_selector_total : forall by_name (cps : str) w,
+  TagText.parse_selector by_name false (RustStr.utf8 cps) <> Panic w.
+Proof. intros. apply TagTotalP.parse_selector_release_total, RustStrP.utf8_ascii_sync. Qed.
+Theorem C05_tag_range_total : forall (cps : str) w,
+  TagText.tag_range_from_str (RustStr.utf8 cps) <> Panic w.
+Proof. intros. apply TagTotalP.tag_range_no_panic, RustStrP.utf8_ascii_sync. Qed.
 
 (** [dicom_json::from_value] on ANY JSON value, and [from_str] on any syntactically valid
     JSON text (documents may repeat keys), for any float<->text functions [X]. *)
@@ -80,3 +89,5 @@ Print Assumptions C05_rle_total.
 Print Assumptions C05_rle_frame_total.
 Print Assumptions C05_eager_next_terminates.
 Print Assumptions C05_pdu_total.
+Print Assumptions C05_selector_total.
+Print Assumptions C05_tag_range_total.
